@@ -734,6 +734,11 @@ class C18Executor(Executor):
             self._iter_stack.pop()
             self._iter_state.pop()
 
+    def add_vc(self, kind, label, pc, goal, note="", loc=""):
+        g = goal.t if isinstance(goal, VBool) else (z3.BoolVal(goal) if isinstance(goal, bool) else goal)
+        pc = list(pc)
+        super().add_vc(kind, label, pc + unfold_instances(pc + [g]), g, note, loc)
+
     def assign(self, tgt, v, st):
         if isinstance(v, VExt) and v.sort == "Json" and z3.is_app(v.t) and v.t.decl().kind() == z3.Z3_OP_SEQ_NTH:
             seq_t, idx = v.t.arg(0), v.t.arg(1)
@@ -1675,12 +1680,42 @@ FP_FOUND = z3.Function("folder_lookup_found", CtxS, S, B)
 FP_ITEM = z3.Function("folder_lookup_item", CtxS, S, JsonS)
 
 
+RECDEFS: dict = {}     # name -> (function, formal parameters, body): the definition table of the spec functions
+
+
+def defrec(f, params, body):
+    z3.RecAddDefinition(f, params, body)
+    RECDEFS[f.name()] = (f, list(params), body)
+
+
+def unfold_instances(terms):
+    """One-step unfoldings `F(args) == body[args]` for every ground application of a spec function in `terms`.
+    z3's own unfolding of recursive definitions is unreliable on these VCs (measured: the valid step VC of the walk is
+    answered `sat` for 9 of 12 random seeds, `unsat` for 12 of 12 once this instance is among the hypotheses); the
+    instances are consequences of the definitions, so adding them is sound."""
+    seen, stack, out, done = set(), list(terms), [], set()
+    while stack:
+        x = stack.pop()
+        if x.get_id() in seen:
+            continue
+        seen.add(x.get_id())
+        if z3.is_quantifier(x):
+            continue                       # applications under binders mention bound variables
+        if z3.is_app(x):
+            d = RECDEFS.get(x.decl().name())
+            if d is not None and x.num_args() == len(d[1]) and x.get_id() not in done:
+                done.add(x.get_id())
+                out.append(x == z3.substitute(d[2], *zip(d[1], x.children())))
+            stack.extend(x.children())
+    return out
+
+
 def _macro(name, sorts, build):
     """Non-recursive definition (z3 define-fun): keeps the bodies of the recursive spec functions free of nested
     case splits (z3's recfun engine loops when an if-condition inside a recursive body contains a recursive call)."""
     f = z3.RecFunction(name, *sorts)
     xs = [z3.Const(f"{name}_x{i}", srt) for i, srt in enumerate(sorts[:-1])]
-    z3.RecAddDefinition(f, xs, build(*xs))
+    defrec(f, xs, build(*xs))
     return f
 
 
@@ -1713,18 +1748,18 @@ _u, _pp, _k = z3.String("u_def"), z3.String("pp_def"), z3.Int("k_def")
 _ctx, _flt = z3.Const("ctx_def", CtxS), z3.Const("flt_def", FltS)
 _w = z3.Const("w_def", SQF)
 URLK = z3.RecFunction("page_url", S, I, S)                      # k-th page URL of the chain starting at u
-z3.RecAddDefinition(URLK, [_u, _k], z3.If(_k <= 0, _u, next_url(URLK(_u, _k - 1))))
+defrec(URLK, [_u, _k], z3.If(_k <= 0, _u, next_url(URLK(_u, _k - 1))))
 PF = z3.RecFunction("page_files", S, S, I, SQF)                 # files among the first k items of page u
-z3.RecAddDefinition(PF, [_u, _pp, _k], z3.If(_k <= 0, z3.Empty(SQF), z3.Concat(
+defrec(PF, [_u, _pp, _k], z3.If(_k <= 0, z3.Empty(SQF), z3.Concat(
     PF(_u, _pp, _k - 1), z3.If(is_file(item_at(_u, _k - 1)), z3.Unit(META_OF(item_at(_u, _k - 1), _pp)), z3.Empty(SQF)))))
 FILES = z3.RecFunction("chain_files", S, S, I, SQF)             # files of the first k pages
-z3.RecAddDefinition(FILES, [_u, _pp, _k], z3.If(_k <= 0, z3.Empty(SQF), z3.Concat(
+defrec(FILES, [_u, _pp, _k], z3.If(_k <= 0, z3.Empty(SQF), z3.Concat(
     FILES(_u, _pp, _k - 1), PF(URLK(_u, _k - 1), _pp, n_items(URLK(_u, _k - 1))))))
 PFOLD = z3.RecFunction("page_folders", S, I, SQJ)
-z3.RecAddDefinition(PFOLD, [_u, _k], z3.If(_k <= 0, z3.Empty(SQJ), z3.Concat(
+defrec(PFOLD, [_u, _k], z3.If(_k <= 0, z3.Empty(SQJ), z3.Concat(
     PFOLD(_u, _k - 1), z3.If(is_folder(item_at(_u, _k - 1)), z3.Unit(item_at(_u, _k - 1)), z3.Empty(SQJ)))))
 FOLD = z3.RecFunction("chain_folders", S, I, SQJ)
-z3.RecAddDefinition(FOLD, [_u, _k], z3.If(_k <= 0, z3.Empty(SQJ), z3.Concat(
+defrec(FOLD, [_u, _k], z3.If(_k <= 0, z3.Empty(SQJ), z3.Concat(
     FOLD(_u, _k - 1), PFOLD(URLK(_u, _k - 1), n_items(URLK(_u, _k - 1))))))
 
 
@@ -1746,13 +1781,13 @@ def def_folders_all(u):
 
 WALK = z3.RecFunction("walk", CtxS, S, S, SQF)                  # preorder: files of the folder, then each subfolder
 WF = z3.RecFunction("walk_subfolders", CtxS, S, S, I, SQF)      # ... the first k subfolders of the listing at u
-z3.RecAddDefinition(WALK, [_ctx, _u, _pp], z3.Concat(files_all(_u, _pp), WF(_ctx, _u, _pp, z3.Length(folders_all(_u)))))
+defrec(WALK, [_ctx, _u, _pp], z3.Concat(files_all(_u, _pp), WF(_ctx, _u, _pp, z3.Length(folders_all(_u)))))
 _f = folders_all(_u)[_k - 1]
-z3.RecAddDefinition(WF, [_ctx, _u, _pp, _k], z3.If(_k <= 0, z3.Empty(SQF), z3.Concat(
+defrec(WF, [_ctx, _u, _pp, _k], z3.If(_k <= 0, z3.Empty(SQF), z3.Concat(
     WF(_ctx, _u, _pp, _k - 1),
     z3.If(f_has_id(_f), WALK(_ctx, CU(_ctx, f_id(_f)), join_path(_pp, f_name(_f))), z3.Empty(SQF)))))
 FILTER = z3.RecFunction("filter_prefix", FltS, SQF, I, SQF)     # matching ones among the first k
-z3.RecAddDefinition(FILTER, [_flt, _w, _k], z3.If(_k <= 0, z3.Empty(SQF), z3.Concat(
+defrec(FILTER, [_flt, _w, _k], z3.If(_k <= 0, z3.Empty(SQF), z3.Concat(
     FILTER(_flt, _w, _k - 1), z3.If(MATCHES(_flt, _w[_k - 1]), z3.Unit(_w[_k - 1]), z3.Empty(SQF)))))
 
 
@@ -1777,7 +1812,7 @@ def waf_spec(ctx, flt, path):
 
 
 LFF = z3.RecFunction("filtered_over_targets", CtxS, FltS, I, SQF)
-z3.RecAddDefinition(LFF, [_ctx, _flt, _k], z3.If(_k <= 0, z3.Empty(SQF), z3.Concat(
+defrec(LFF, [_ctx, _flt, _k], z3.If(_k <= 0, z3.Empty(SQF), z3.Concat(
     LFF(_ctx, _flt, _k - 1), WAF(_ctx, _flt, TARGET_AT(_flt, _k - 1)))))
 
 
@@ -1789,7 +1824,7 @@ def chain_finite(u):
 
 
 TAKE = z3.RecFunction("take", SQF, I, SQF)                      # the first k elements, built by appending one at a time
-z3.RecAddDefinition(TAKE, [_w, _k], z3.If(_k <= 0, z3.Empty(SQF), z3.Concat(TAKE(_w, _k - 1), z3.Unit(_w[_k - 1]))))
+defrec(TAKE, [_w, _k], z3.If(_k <= 0, z3.Empty(SQF), z3.Concat(TAKE(_w, _k - 1), z3.Unit(_w[_k - 1]))))
 
 
 def take_all():
